@@ -337,6 +337,8 @@ def import_dict_multi_crv(data):
         shape.id = data['id']
     if 'reversed' in data:  # trim curve sense
         shape.opt = ['reversed', data['reversed']]
+    if 'delta' in data:  # the container evaluates its curves with its own delta
+        shape.delta = data['delta']
     return shape
 
 
@@ -353,6 +355,7 @@ def export_dict_multi_crv(obj):
     data = dict(
         type="container",
         count=len(curves),
+        delta=obj.delta,
         data=curves
     )
 
